@@ -1,11 +1,12 @@
 (* C19 - Reconstructor output re-parses to the same tree.  Property theorems only; the model is
    Recons/Recons.v (+ Text.v), the proofs are in Recons/*_proofs.v. *)
-From Coq Require Import String Ascii List Arith Bool.
+From Coq Require Import ZArith String Ascii List Arith Bool.
 From LV Require Import Forest.ExplicitBuild Forest.ExplicitAlgBuild.
 From LV Require Import Base.Prelude Cfg.Grammar Earley.Spec Recons.Recons Recons.Recons_proofs Recons.ReconsCheck
      Recons.ReconsCheck_proofs Recons.Text Recons.Text_proofs Recons.Complete_proofs Recons.Link_proofs Recons.Extra_proofs Recons.Roundtrip_proofs
      Recons.EarleyM Recons.EarleyM_proofs Recons.EarleyM_sel Lex.LexerBase Lex.Lexer Recons.Relex Recons.Relex_proofs
-     Recons.Char_proofs.
+     Recons.Char_proofs Recons.RelexSafe Recons.RelexSafe_proofs Recons.CharSafe_proofs
+     Recons.GenBase Gen.ReconsHoles Recons.Gen_proofs Recons.Findings_proofs.
 Import ListNotations.
 
 (* core: one node.  For a supported match u of node (Node data cs) - root rule from rules_for_root[data], inner
@@ -317,3 +318,167 @@ Proof.
   apply plain_roots_b_sound; vm_compute; reflexivity.
 Qed.
 Print Assumptions C19_plain_roots_example.
+
+(* ---------------------------------------------------------------------------------------------------------------
+   Round 12: the boundary condition as a consequence of a decidable per-grammar condition.  relex_safe_b (Recons/RelexSafe.v)
+   speaks about the terminals of the grammar only: string terminals and class-plus regexp terminals [..]+ with the
+   computed matcher m_cp (compared with Python's re on every recorded text), the scanner's trial order, the literals
+   the Reconstructor re-inserts, the characters that can follow a token in a reconstructed text (spacing rule included)
+   and the ignored blank. *)
+
+(* pure lexer level: for a relex-safe lexer, the joined text of ANY list of tokens the lexer can produce (a token that
+   some terminal scans with exactly its length in front of some rest, reported under its type) satisfies bc_b *)
+Theorem C19_relex_safe_bc :
+  forall (names : list string) (L : blexer) (lits toks : list (nat * string)),
+    relex_safe_b names L lits = true -> Forall (lexable names L) toks ->
+    bc_b m_cp names L (reconstruct_text toks) 0 EmptyString toks = true.
+Proof. exact relex_safe_bc. Qed.
+Print Assumptions C19_relex_safe_bc.
+
+(* every token the BasicLexer model returns on any text is such a token *)
+Theorem C19_lexed_tokens_lexable :
+  forall (names : list string) (L : blexer), forallb term_ok (flat L) = true ->
+  forall src toks, lex_with m_cp names L src = Some toks -> Forall (lexable names L) toks.
+Proof. exact lex_with_lexable. Qed.
+Print Assumptions C19_lexed_tokens_lexable.
+
+(* relex_safe G -> bc_b (written tokens of t) for every tree whose tokens the lexer produced: what _reconstruct writes
+   are tokens of the tree and re-inserted literals (S4), each stable in its new context (S1-S3) *)
+Theorem C19_relex_safe_implies_bc :
+  forall (us : nat -> bool) (P : list prule)
+         (order : nlabel stree -> list (family stree) -> list (family stree)),
+    (forall l fs f, In f (order l fs) <-> In f fs) ->
+  forall (lits : list (nat * string)) (names : list string) (L : blexer),
+    relex_safe_b names L lits = true ->
+  forall fuel t toks,
+    Forall (lexable names L) (tokens_of t) ->
+    recon (lookup_lit lits) (M_earley us P (sel_graph order)) fuel t = Ok toks ->
+    bc_b m_cp names L (reconstruct_text toks) 0 EmptyString toks = true.
+Proof. exact relex_safe_implies_bc. Qed.
+Print Assumptions C19_relex_safe_implies_bc.
+
+(* the character-level round trip with no per-tree hypothesis: for a relex-safe grammar of the class, EVERY tree the
+   char-level parser (BasicLexer model with m_cp, then the parser specification) returns on ANY source text is
+   reconstructed to a text that lexes back to the written tokens and parses back to that tree *)
+Theorem C19_char_roundtrip :
+  forall (us : nat -> bool) (P : list prule), cls us P -> cls_extra us P -> plain_roots us P ->
+  forall (order : nlabel stree -> list (family stree) -> list (family stree)),
+    (forall l fs f, In f (order l fs) <-> In f fs) ->
+  forall (lits : list (nat * string)),
+    (forall r n, In r P -> In (Tm n true) (p_exp r) -> lookup_lit lits n <> None) ->
+    (forall r n fo, In r P -> In (Tm n fo) (p_exp r) ->
+                    forall r', In r' P -> p_origin r' <> n /\ p_alias r' <> Some n) ->
+  forall cok names terms ign L, make_lexer m_cp cok terms ign = Some L ->
+    relex_safe_b names L lits = true ->
+  forall start src t,
+    ~ In start (expand1s P) -> us start = false ->
+    parses_text us P (lex_model m_cp cok names terms ign) start src t ->
+    exists fuel toks,
+      recon (lookup_lit lits) (M_earley us P (sel_graph order)) fuel t = Ok toks /\
+      lex_model m_cp cok names terms ign (reconstruct_text toks) = Some toks /\
+      parses_text us P (lex_model m_cp cok names terms ign) start (reconstruct_text toks) t /\
+      (unambiguous P start ->
+       forall t', parses_text us P (lex_model m_cp cok names terms ign) start (reconstruct_text toks) t' -> t' = t).
+Proof. exact char_roundtrip_safe. Qed.
+Print Assumptions C19_char_roundtrip.
+
+(* for string terminals without flags m_cp is the prefix test the C07 theorems assume of the regex oracle *)
+Theorem C19_m_cp_string :
+  forall t text p, tre t = false -> tflags t = [] -> m_cp t text p = str_match_at t text p.
+Proof. exact m_cp_str. Qed.
+Print Assumptions C19_m_cp_string.
+
+(* F12's grammar is not relex-safe: PLUS "+" is a proper prefix of PP "++", tried first, and "+" can follow PLUS *)
+Definition f12_terms : list term :=
+  [mkTerm "PLUS" 0%Z false "+" [] 1%Z; mkTerm "PP" 0%Z false "++" [] 2%Z; mkTerm "WS" 0%Z false " " [] 1%Z].
+Definition f12_names : list string := ["start"; "PLUS"; "PP"; "WS"]%string.
+Example C19_F12_not_relex_safe :
+  exists L, make_lexer m_cp (fun _ => true) f12_terms ["WS"%string] = Some L /\
+            map tname (flat L) = ["PP"; "PLUS"; "WS"]%string /\
+            s2_b L = false /\ relex_safe_b f12_names L f12_lits = false.
+Proof. eexists. split; [vm_compute; reflexivity|]. repeat split; vm_compute; reflexivity. Qed.
+
+(* non-vacuity of C19_char_roundtrip:  start: NAME "+" NAME   NAME: /[a-z]+/   %ignore " "   on the source "ab + c" *)
+Definition sf_terms : list term :=
+  [mkTerm "NAME" 0%Z true "[a-z]+" [] 4294967295%Z; mkTerm "PLUS" 0%Z false "+" [] 1%Z; mkTerm "WS" 0%Z false " " [] 1%Z].
+Definition sf_names : list string := ["start"; "NAME"; "PLUS"; "WS"]%string.
+Definition sf_rule : prule := mkP 0 [Tm 1 false; Tm 2 true; Tm 1 false] None false.
+Definition sf_P : list prule := [sf_rule].
+Definition sf_lits : list (nat * string) := [(2, "+"%string)].
+Definition sf_us (n : nat) : bool := false.
+Definition sf_lex := lex_model m_cp (fun _ => true) sf_names sf_terms ["WS"%string].
+Example C19_char_roundtrip_example :
+  exists L, make_lexer m_cp (fun _ => true) sf_terms ["WS"%string] = Some L /\
+    relex_safe_b sf_names L sf_lits = true /\
+    parses_text sf_us sf_P sf_lex 0 "ab + c"%string (Node 0 [Tok 1 "ab"%string; Tok 1 "c"%string]) /\
+    exists fuel toks,
+      recon (lookup_lit sf_lits) (M_earley sf_us sf_P (sel_graph order_id)) fuel
+            (Node 0 [Tok 1 "ab"%string; Tok 1 "c"%string]) = Ok toks /\
+      sf_lex (reconstruct_text toks) = Some toks /\
+      parses_text sf_us sf_P sf_lex 0 (reconstruct_text toks) (Node 0 [Tok 1 "ab"%string; Tok 1 "c"%string]).
+Proof.
+  eexists. split; [vm_compute; reflexivity|]. split; [vm_compute; reflexivity|].
+  assert (Hp : parses_text sf_us sf_P sf_lex 0 "ab + c"%string (Node 0 [Tok 1 "ab"%string; Tok 1 "c"%string])).
+  { exists [(1, "ab"%string); (2, "+"%string); (1, "c"%string)]. split; [vm_compute; reflexivity|].
+    exists sf_rule, [DTok 1 "ab"%string; DTok 2 "+"%string; DTok 1 "c"%string]. repeat split.
+    constructor; [left; reflexivity|]. repeat constructor. }
+  split; [exact Hp|].
+  destruct (char_roundtrip_safe sf_us sf_P) with (order := order_id) (lits := sf_lits) (cok := fun _ : list term => true)
+    (names := sf_names) (terms := sf_terms) (ign := ["WS"%string]) (start := 0) (src := "ab + c"%string)
+    (t := Node 0 [Tok 1 "ab"%string; Tok 1 "c"%string])
+    (L := mkLexer (sort_terms sf_terms) [sort_terms sf_terms] ["WS"%string])
+    as (fuel & toks & Hr & Hl & Hp' & _).
+  - apply class_b_sound; vm_compute; reflexivity.
+  - apply extra_b_sound; vm_compute; reflexivity.
+  - apply plain_roots_b_sound; vm_compute; reflexivity.
+  - exact order_id_perm.
+  - apply lits_b_sound; vm_compute; reflexivity.
+  - apply disj_b_sound; vm_compute; reflexivity.
+  - vm_compute; reflexivity.
+  - vm_compute; reflexivity.
+  - intros H. vm_compute in H. exact H.
+  - reflexivity.
+  - exact Hp.
+  - exists fuel, toks. auto.
+Qed.
+Print Assumptions C19_char_roundtrip_example.
+
+(* ---------------------------------------------------------------------------------------------------------------
+   Round 12: the conditions of the hand-written model are the ones regenerated from the source.  translator/gen_recons.py
+   pins Reconstructor.__init__/_reconstruct/reconstruct, WriteTokensTransformer (all four methods), is_iter_empty,
+   is_discarded_terminal, _MakeTreeMatch, _best_from_group, _best_rules_from_group, _match, make_recons_rule(_to_term),
+   ChildrenLexer.lex, TreeMatcher.__init__/_build_recons_rules/match_tree, utils.is_id_continue/_test_unicode_category by
+   fail-closed templates and writes their conditions to Gen/ReconsHoles.v (g_...); the model uses exactly these. *)
+Theorem C19_model_conditions_regenerated :
+  (* the spacing rule and is_id_continue (ASCII) *)
+  (forall prev item, need_space prev item = g_need_space is_id_continue true prev item) /\
+  forallb (fun n => Bool.eqb (is_id_continue (ascii_of_nat n)) (idc_of_cats g_idc_cats (ascii_of_nat n))) (seq 0 128) = true /\
+  (* is_discarded_terminal *)
+  (forall s, discarded s = match s with Tm _ fo => g_discarded true fo | Nt _ => g_discarded false false end) /\
+  (* _build_recons_rules: inlined non-terminals, skipped alternatives, the loop's classification *)
+  (forall us P n, is_nonterminal us P n =
+                  memn n (rule_names P) && g_is_nt (us n) (memn n (expand1s P)) (memn n (aliased P))) /\
+  (forall us P r, skipped us P r = g_skip (list_eqb symbol_eqb (recons_exp us P r) [NT (p_origin r)]) (has_alias r)) /\
+  (forall us P rs seen, Recons.build_loop us P rs seen = build_loop_g us P rs seen) /\
+  (* _best_from_group never replaces inside a group (equal expansions); the sort is by ascending length *)
+  (forall len, g_better (g_cmp_key len) (g_cmp_key len) = false) /\
+  (forall x r, Nat.ltb (length (r_exp x)) (length (r_exp r)) =
+               Z.ltb (g_sort_key (Z.of_nat (length (r_exp x)))) (g_sort_key (Z.of_nat (length (r_exp r))))).
+Proof.
+  exact (conj need_space_gen (conj is_id_continue_gen (conj discarded_gen (conj is_nonterminal_gen
+        (conj skipped_gen (conj build_loop_gen (conj best_never_replaces sort_key_gen))))))).
+Qed.
+Print Assumptions C19_model_conditions_regenerated.
+
+(* F38 at model level: `?x: _l` with three children.  Every class condition but c_single (single_ok_b) holds, the tree is
+   the shape of a derivation, and the Earley tree matcher of the model finds no match for start[x[a a a]]: reconstruction
+   fails.  c_single is therefore necessary in C19_match_exists and the round-trip theorems. *)
+Theorem C19_F38_refuted :
+  closed_b f38_P = true /\ alias_ok_b f38_us f38_P = true /\ uscore_plain_b f38_us f38_P = true /\
+  expand1_uniform_b f38_P = true /\ extra_b f38_us f38_P = true /\
+  single_ok_b f38_us f38_P = false /\
+  wf f38_P f38_d /\ shape f38_us f38_d = f38_tree /\
+  M_earley f38_us f38_P sel_resolve f38_tree = None /\
+  (forall lit fuel, recon lit (M_earley f38_us f38_P sel_resolve) (S fuel) f38_tree = AssertFail).
+Proof. exact F38_refuted. Qed.
+Print Assumptions C19_F38_refuted.
